@@ -410,6 +410,11 @@ def run_plan(plan, trace=False):
                 res.stats["probe:runners_overlapped"] += exf.overlaps
             if executed and not sp.log:
                 raise HarnessError("SEAM-LOST C18: commands ran but no _molli_run spawn went through SimSpawn")
+            done_ok = [l_ for l_ in sp.log if l_["rc"] == 0 and not l_["fault"]]
+            if done_ok and not any(os.path.isfile(os.path.join(outdir, l_["stem"] + ".out")) for l_ in done_ok):
+                # cache files are damaged / removed / looked for under <cache_dir>/output/<key>.out: a tree that keeps them
+                # elsewhere cannot be judged by this harness (a lost seam, not a verdict)
+                raise HarnessError("SEAM-LOST C18: runners completed but no <cache_dir>/output/<key>.out exists - the cache layout is not the one this check knows")
             if expect_exec and not exf.executors and raised is None:
                 raise HarnessError("SEAM-LOST C18: jobmap did not use the ThreadPoolExecutor seam")
             interrupted = raised is not None
